@@ -309,6 +309,9 @@ func BuildSelect(query *Query, slct *sqlparser.Select) error {
 			bare = order.Key[len(query.alias)+1:]
 		case len(query.table) > 0 && strings.HasPrefix(order.Key, query.table+"."):
 			bare = order.Key[len(query.table)+1:]
+		case len(query.table) > 0 && strings.HasPrefix(order.Key, query.table[strings.LastIndex(query.table, ".")+1:]+"."):
+			// (the last part of the table's path is its name too: users.id FROM root.users)
+			bare = order.Key[len(query.table)-strings.LastIndex(query.table, "."):]
 		}
 		if len(bare) == 0 {
 			continue
